@@ -11,7 +11,8 @@ From Coq Require Import List NArith ZArith QArith Bool Arith Lia Permutation.
 Import ListNotations.
 From FP Require Import Lin Blocks BlocksProofs PathEnc PathEncProofs Euler EulerProofs1 EulerProofs4 WalkDecode
                        SatCheck WalkEncRows WalkEncRowsProofs WalkExamples WalkErrEnc WalkErrEncProofs WalkErrExamples
-                       WalkTree WalkEncComplete WalkCoverIff WalkErrComplete WalkErrOptimal WalkErrOptExamples.
+                       WalkTree WalkEncComplete WalkCoverIff WalkErrComplete WalkErrOptimal WalkErrOptExamples
+                       Dilworth WalkWidth WalkErrWidth WalkErrWidthExamples.
 Local Close Scope Q_scope.
 
 Theorem C07_walk_lp_solution_is_k_walks_with_dominating_errors : forall (I : werr_inst) (a : var -> Q),
@@ -124,3 +125,37 @@ Example C07_walk_optimal_nonvacuous :
   (forall b, sat b (encode_klae_cycles tail_inst) -> (objective tail_klae_asg (encode_klae_cycles tail_inst) <= objective b (encode_klae_cycles tail_inst))%Q) /\
   (exists P wt, klaec_admissible tail_inst P wt /\ (klaec_cost tail_inst P wt == 0)%Q).
 Proof. exact klaec_optimal_nonvacuous. Qed.
+
+(* ------------------------------------------------------------------ end to end feasibility on digraphs with cycles:
+   kLeastAbsErrorsCycles (no subset constraints / safety lists) is feasible for every k >= 1 whenever a source-to-sink walk
+   exists (k copies of a simple source-to-sink path, weights 0, errors = f, within the bound w_max of the error columns) --
+   PROVIDED the caps derived from the weights admit one traversal: largest reachable weight >= 1 on the edges inside strongly
+   connected components, w_max >= 1 *)
+Theorem C07_walk_klaec_end_to_end_feasible : forall I : werr_inst,
+  let G := x_graph I in let E := g_edges G in
+  wf_stg G -> x_cons I = [] -> x_safe_lists I = [] -> x_fix I = [] ->
+  (forall e, In e (x_basic I) -> (0 <= xscale I e <= 1)%Q /\ (0 <= xflow I e)%Q /\ (x_int I = true -> is_int (xflow I e))) ->
+  conn E (g_src G) (g_snk G) -> (1 <= x_k I)%nat ->
+  (forall e, In e E -> is_scc_edge G e = true -> (1 <= reach_max I e)%Q) -> (1 <= x_wmax I)%Q ->
+  exists a, sat a (encode_klae_cycles I) /\
+            (objective a (encode_klae_cycles I) == sumq (fun e => xscale I e * xflow I e) (x_basic I))%Q.
+Proof. exact klaec_end_to_end_feasible. Qed.
+Print Assumptions C07_walk_klaec_end_to_end_feasible.
+
+Theorem C07_walk_feasible_from_bounded_family : forall (I : werr_inst) (P : N -> list node) (B : nat),
+  wf_stg (x_graph I) -> x_cons I = [] -> x_safe_lists I = [] -> x_fix I = [] ->
+  wwalks (werr_walk I) P ->
+  (forall i e, In i (layers (x_k I)) -> (count_e e (pairs (P i)) <= B)%nat) ->
+  (forall e, In e (g_edges (x_graph I)) -> is_scc_edge (x_graph I) e = true -> (qnat B <= reach_max I e)%Q) ->
+  (qnat B <= x_wmax I)%Q ->
+  (forall e, In e (x_basic I) -> (0 <= xscale I e <= 1)%Q /\ (0 <= xflow I e)%Q /\ (x_int I = true -> is_int (xflow I e))) ->
+  (1 <= x_k I)%nat ->
+  exists a, sat a (encode_klae_cycles I) /\
+            (objective a (encode_klae_cycles I) == sumq (fun e => xscale I e * xflow I e) (x_basic I))%Q.
+Proof. exact klaec_feasible_from_family. Qed.
+Print Assumptions C07_walk_feasible_from_bounded_family.
+
+(* non-vacuity on the 2-cycle with a tail (weights 1, 2, 1, 1; k = 1): feasible with objective 1*2 + 1*1 = 3 *)
+Example C07_walk_end_to_end_example :
+  exists a, sat a (encode_klae_cycles tail_inst) /\ (objective a (encode_klae_cycles tail_inst) == 3)%Q.
+Proof. exact klaec_end_to_end_example. Qed.
